@@ -1,5 +1,5 @@
 use crate::cfg::Cfg;
-use crate::parser::{InstructionProperties, Register};
+use crate::parser::{IArithType, InstructionProperties, ParserNode, Register};
 use crate::passes::{DiagnosticManager, LintError, LintPass};
 
 pub struct SaveToZeroCheck;
@@ -7,8 +7,14 @@ pub struct SaveToZeroCheck;
 impl LintPass for SaveToZeroCheck {
     fn run(cfg: &Cfg, errors: &mut DiagnosticManager) {
         for node in cfg {
+            // `nop` is `addi x0, x0, 0`: it is written to do nothing
+            let nop = matches!(node.node(), ParserNode::IArith(x)
+                if x.inst == IArithType::Addi
+                    && x.rd == Register::X0
+                    && x.rs1 == Register::X0
+                    && x.imm.get().value() == 0);
             if let Some(register) = node.writes_to() {
-                if register == Register::X0 && !node.can_skip_save_checks() {
+                if register == Register::X0 && !node.can_skip_save_checks() && !nop {
                     errors.push(LintError::SaveToZero(register.clone()));
                 }
             }
